@@ -121,8 +121,8 @@ def cstateOfJson (j : Json) : Except String CState := do
 def flagsOfJson (j : Json) : Except String MachineFlags := do
   let bandWhole ← boolOfJson (fieldD j "bandWhole" (Json.bool false))
   let resetPipelineCfg ← boolOfJson (fieldD j "resetPipelineCfg" (Json.bool false))
-  let mergeOnlyDicts ← boolOfJson (fieldD j "mergeOnlyDicts" (Json.bool false))
-  return { bandWhole, resetPipelineCfg, mergeOnlyDicts }
+  let strictMerge ← boolOfJson (fieldD j "strictMerge" (Json.bool false))
+  return { bandWhole, resetPipelineCfg, strictMerge }
 
 def cstateToJson (m : CState) : Json :=
   mkObj [("pipeline_cfg", jvalToJson (.obj m.pipelineCfg)), ("right_disp_map", Json.bool m.rightDispMap),
